@@ -281,10 +281,32 @@ MODULES = ['openmdao.matrices.coo_matrix', 'openmdao.matrices.csc_matrix', 'open
            'openmdao.jacobians.subjac', 'openmdao.jacobians.jacobian', 'openmdao.solvers.linear.direct', 'openmdao.components.interp_util.interp_bsplines']
 
 
+def _convert_info(info):
+    n = 0
+    for meta in info.values():
+        v = meta.get('val')
+        if sp.issparse(v):
+            cls = {'coo': coo_matrix, 'csc': csc_matrix, 'csr': csr_matrix}.get(v.format)
+            meta['val'] = cls(v) if cls else coo_matrix(v.tocoo())
+            n += 1
+    return n
+
+
 def install(extra=()):
-    """rebind the scipy.sparse constructors imported by name in the OpenMDAO modules that build assembled matrices"""
+    """rebind the scipy.sparse constructors imported by name in the OpenMDAO modules that build assembled matrices, and convert
+    partials that were declared with a real scipy.sparse value to the stand-in of the same format at the moment a Jacobian is
+    created from a system's declared-partials metadata"""
     import importlib
     import sys
+    import openmdao.jacobians.jacobian as JM
+    if not getattr(JM.Jacobian.__init__, '_symx', False):
+        orig_init = JM.Jacobian.__init__
+
+        def __init__(self, system, *a, **k):
+            _convert_info(system._subjacs_info)
+            orig_init(self, system, *a, **k)
+        __init__._symx = True
+        JM.Jacobian.__init__ = __init__
     for name in list(MODULES) + list(extra):
         m = sys.modules.get(name) or importlib.import_module(name)
         for attr, repl in (('coo_matrix', coo_matrix), ('csc_matrix', csc_matrix), ('csr_matrix', csr_matrix), ('issparse', issparse)):
